@@ -117,6 +117,8 @@ PROPS = {
 
 NOT_APPLICABLE = {p: "check under construction in this round (claimed once its model, theorems and engine are committed)" for p in
                   ["C%02d" % i for i in range(1, 21)]}
+# properties whose check exists but is being reconciled with the current tree (not claimed in MANIFEST meanwhile)
+HOLD = ["C08", "C13"]
 HOOK_COMMITS = ["c6f7867", "24f55f1", "656796a"]
 
 PROPS["C16"] = {'assumptions': ['HKDF-SHA256 is injective on the secrets in use (collision resistance)',
@@ -369,3 +371,39 @@ PROPS["C17"] = {'assumptions': ["sync.Mutex / sync.RWMutex mutual exclusion, syn
              'the fact extractor tools/gen/facts_lock.go (typed-AST, syntactic) and the reviewed allow-list of methods on interface-typed Stream fields '
              '(cipher.AEAD.Seal/Open, hash.Hash.Sum, net.Conn.* read-only; hash.Hash.Write writing)',
              'expiry is a class (never / past / future = now -/+ 1h) fixed per entry object; symbolic AEAD/hash in the stream model (DESIGN §3)']}
+
+PROPS["C08"] = {'assumptions': ['the classad library (github.com/PelicanPlatform/classad v0.4.0: ParseExpr, ast rendering, Insert) is correct; its literal syntax is '
+                 'described by LitGrammar and compared with it on every run',
+                 'strconv.ParseFloat is a function of its text and symmetric in the sign (the shortcut parses "-1.5", the parser negates the value of "1.5")',
+                 'a receive error is terminal'],
+ 'engines': ['literal', 'adwire'],
+ 'lean': 'CedarProps.C08',
+ 'level_note': "The external parser is a parameter of the model (verdict + symbolic result); 'the expression the parser assigns' is compared up to one "
+               'equivalence: a minus sign in front of a numeric literal is the negative literal (the sender renders IntegerLiteral(-5) as -5). LitGrammar '
+               "covers literal tokens and blanks (not comments, not the trailing ; the parser's record wrapper tolerates). wire_roundtrip is stated for "
+               'plaintext and encrypted streams (uniform string mode); the marker + put_secret path of a keyed, non-encrypting stream is covered by '
+               'receivers_same_bytes / receivers_fail_together (all states) and by the adwire engine on real streams, its secrecy by C09. The capped reader '
+               "GetClassAdWithMaxSize and negative length prefixes (GetString panics) belong to C13. Rendering is the classad library's: a non-finite real "
+               'literal renders as +Inf, which its own parser rejects (observation, generator keeps to finite reals).',
+ 'level_text': "shortcut_agrees (for EVERY value text: a literal fast path that fires yields exactly what the parser's literal syntax assigns), decoded_value "
+               "(every outcome of parseAndInsertExpression: shortcut literal / parser's own result / old-string fallback only behind a parser rejection), "
+               'fallback_sound, old_string_roundtrip, decode_error_class, receivers_same_bytes (for EVERY reader state — any frames, both string modes, keyed '
+               'or not, marker fields included — GetClassAd, GetClassAdRaw and SkipClassAdRaw end in the same state), receivers_fail_together (running out of '
+               'message is common to all three), wire_layout, wire_roundtrip (every ad of well-formed strings, every trailing values, every cut into frames: '
+               "raw text = the sender's strings, parsed ad = parseAndInsert of each string with exactly the sender's names, same unread bytes), prefix_*_fails "
+               '(the three pre-fix violations, recorded): kernel-checked over the model. Tied to the code by the literal engine (every string over the '
+               '16-symbol literal alphabet up to length 4/5, all case variants of true/false, number/string/expression edge lists, grammar-generated literals '
+               'with mutations — real decoder vs external parser vs model, and LitGrammar vs external parser) and the adwire engine (grammar-generated ads '
+               'through the four real senders over real streams in three crypto states, three real receivers on the same wire bytes, sender frames, re-cut '
+               'frames, damaged ads).',
+ 'oracle_engine': {'adwire': 'classad', 'literal': 'classad'},
+ 'technique': 'Lean 4 theorems (recognisers refined to a reference literal grammar; discard = ensureData + drop and the match-tracking skip = read, by '
+              'induction over frames, lifted through the expression loop to whole receivers; round trip as refinement over the pending bytes of the message, '
+              'reusing the C14 codec lemmas) + correspondence of the real decoder, the external parser and the model on exhaustive short texts, and of real '
+              'senders/receivers on real streams with the model on generated, re-cut and damaged ads',
+ 'trusted': ['classad.ParseExpr / ast rendering / ClassAd.Insert (external library): parameter of the model, evaluated by the harness; its literal syntax '
+             '(LitGrammar) is tested against it on every run',
+             'strconv.ParseFloat / ParseInt, strings.TrimSpace, utf8.ValidString, fmt %q: Go standard library, transcribed (TrimSpace, ValidString, ParseInt) '
+             'or evaluated by the harness (ParseFloat, %q) and compared on every run',
+             'the stream layer is a frame source for this layer (frames as ReadFrame hands them over); what a frame read under the wrong crypto state looks '
+             'like is C02/C12']}
